@@ -10,10 +10,14 @@ CASES = [
     dict(expect="fire", desc="partition: negation wrapper not negating", names="G4-delegations", edits=[dict(file=P,
          old="        return not predicate(x)", new="        return bool(predicate(x))")]),
     dict(expect="fire", desc="source completion does not complete groups", names="group_by_until_", edits=[dict(file=G,
-         old="                for wrt in writers.values():\n                    wrt.on_completed()\n\n                observer.on_completed()", new="                observer.on_completed()")]),
+         old="                for wrt in list(writers.values()):\n                    wrt.on_completed()\n\n                observer.on_completed()", new="                observer.on_completed()")]),
     dict(expect="silent", desc="rename loop variable", edits=[dict(file=G, old="wrt", new="group_writer", count=None)]),
     dict(expect="fire", desc="seed C19/2: error fan-out calls writer.on_error instead of the loop variable", names="G3-terminal-fan-out", edits=[dict(file="reactivex/operators/_groupbyuntil.py",
-         old="                except Exception as error:\n                    for wrt in writers.values():\n                        wrt.on_error(error)", new="                except Exception as error:\n                    for wrt in writers.values():\n                        writer.on_error(error)")]),
+         old="                except Exception as error:\n                    for wrt in list(writers.values()):\n                        wrt.on_error(error)", new="                except Exception as error:\n                    for wrt in list(writers.values()):\n                        writer.on_error(error)")]),
     dict(expect="fire", desc="seed C19/1: duration observed with first() instead of take(1)", names="G2-expiry", edits=[dict(file="reactivex/operators/_groupbyuntil.py",
          old="                        ops.take(1),", new="                        ops.first(),")]),
+    dict(expect="fire", desc="pre-fix: terminal fan-out iterates the live group map", names="G3-terminal-fan-out", edits=[dict(file="reactivex/operators/_groupbyuntil.py",
+         old="for wrt in list(writers.values()):", new="for wrt in writers.values():", count=None)]),
+    dict(expect="silent", desc="snapshot spelled tuple(...)", edits=[dict(file="reactivex/operators/_groupbyuntil.py",
+         old="for wrt in list(writers.values()):", new="for wrt in tuple(writers.values()):", count=None)]),
 ]
